@@ -67,7 +67,8 @@ def generate_voxel_grid(bbox, szval, use_cubes=False):
 
     # It is possible to use cubes instead of cuboids
     if use_cubes:
-        min_val = min(*steps)
+        # A zero step size (bounding box with no extent in that direction) cannot be the edge length of a cube
+        min_val = min([s for s in steps if s > 0.0] or [0.0])
         steps = [min_val for _ in range(0, 3)]
 
     # Find range in each direction
